@@ -47,6 +47,24 @@ std::vector<std::uint8_t> ref_chacha(const std::array<std::uint8_t, 32>& key, co
 }
 std::uint32_t counter_of(const en::ChunkId& id) { return std::uint32_t(id[0]) | (std::uint32_t(id[1]) << 8) | (std::uint32_t(id[2]) << 16) | (std::uint32_t(id[3]) << 24); }
 
+// The block counter a chunk is encrypted from is the first four id bytes (little endian). In a third of the stores those bytes
+// are put at the ends of the 32-bit range, so that the counter passes 2^32 inside the chunk (or would, with an off-by-one).
+void counter_edge(en::ChunkId& id, std::size_t size, std::int64_t arg, std::uint64_t uniq, Ctx& ctx) {
+    const std::uint32_t blocks = static_cast<std::uint32_t>((size + 63) / 64);
+    std::uint32_t ctr = 0;
+    switch ((arg >> 16) % 16) {
+        case 1: ctr = 0xffffffffu; break;
+        case 2: ctr = 0u - blocks; break;
+        case 3: ctr = 0u - blocks + 1u; break;
+        case 4: ctr = 0xffffffffu - blocks; break;
+        case 5: ctr = 0; break;
+        default: return;
+    }
+    id[0] = static_cast<std::uint8_t>(ctr); id[1] = static_cast<std::uint8_t>(ctr >> 8); id[2] = static_cast<std::uint8_t>(ctr >> 16); id[3] = static_cast<std::uint8_t>(ctr >> 24);
+    id[8] = static_cast<std::uint8_t>(uniq); id[9] = static_cast<std::uint8_t>(uniq >> 8);
+    ctx.boundary(std::uint64_t(ctr) + blocks > 0xffffffffull ? "block_counter_passes_2_32_inside_the_chunk" : "block_counter_at_range_edge");
+}
+
 std::array<std::uint8_t, 32> key_from(const pr::Manifest& m, const std::vector<std::size_t>& pick) {
     std::vector<en::crypto::ShamirShare> shares;
     for (auto i : pick) { en::crypto::ShamirShare s{}; s.index = m.shards[i].index; s.value = m.shards[i].value; shares.push_back(s); }
@@ -155,6 +173,7 @@ void exec_c11(const Plan& p, Ctx& ctx) {
             std::vector<std::uint8_t> payload(pl.begin(), pl.end());
             en::ChunkId id = make_id(static_cast<std::uint8_t>(uniq), 0xC1);
             id[3] = static_cast<std::uint8_t>(op.at(2)); id[2] = static_cast<std::uint8_t>(op.at(2) >> 8);
+            counter_edge(id, payload.size(), op.at(2), uniq, ctx);
             ++uniq;
             const Entry* again = pool_pick(op.at(3));
             if (again) { id = again->id; ctx.boundary("restore_of_held_chunk"); }
@@ -215,6 +234,7 @@ void exec_c11(const Plan& p, Ctx& ctx) {
         std::vector<std::uint8_t> payload(pl.begin(), pl.end());
         en::ChunkId id = make_id(static_cast<std::uint8_t>(uniq), 0xD1);
         id[1] = static_cast<std::uint8_t>(op.at(3));
+        counter_edge(id, payload.size(), op.at(3), uniq, ctx);
         ++uniq;
         Entry* already = (tamper != 9) ? pool_pick(op.at(5)) : nullptr;
         if (already && sk::now_ns() + 10 * kSec >= already->deadline) already = nullptr;
